@@ -1,25 +1,32 @@
 // Generator for lean/PprofVerif/Gen/CodecSchema.lean (properties C01 and C02).
 //
 // It reads /repo/profile/encode.go and /repo/profile/proto.go with go/parser (go/ast only, no
-// type checking) and translates the WIRE SCHEMA of the profile codec into Lean data:
+// type checking) and translates the WIRE SCHEMA of the profile codec into Lean data.  It extracts
+// semantic FACTS (numbers, tag → kind tables, call order), not statement text:
 //
 //	(a) for every type with an `encode(b *buffer)` method: the ordered statements of that method —
 //	    (field tag, encoder function, Go field) — loops over repeated messages and the guarded
-//	    PeriodType message being kinds of their own;
-//	(b) for every `xxxDecoder` table: per index the decode function and the target field; closures
-//	    that are not a plain `return decodeXxx(b, &m.(*T).f)` are recognised by comparing their
-//	    printed, alpha-normalised body with the pinned shapes below;
-//	(c) from proto.go: the packed-encoding threshold, the varint byte limit, the field/type split,
-//	    the wire types decodeField accepts and the sizes it reads for the fixed-width types;
-//	(d) from preEncode/postDecode: the order in which preEncode interns strings (every
-//	    addString call with its enclosing loop/if headers) and the dense id-table bounds.
+//	    PeriodType message (with the set of fields its guard tests) being kinds of their own;
+//	(b) for every `xxxDecoder` table: per index the decode function, the target field, how a nested
+//	    message is attached (appended pointer / appended value / set) and which extra checks the
+//	    closure performs.  Closures are analysed statement by statement (aliases such as
+//	    `pp := m.(*Profile)` are substituted first; order and names of locals do not matter);
+//	(c) from proto.go: the packed-encoding threshold (`packed iff len > N`, whichever way the test is
+//	    written), the varint byte limit (literal or package-level constant; `i >= N`, `i == N`,
+//	    a loop bound `i < N`, or `len(data) > N`), the field/type split, the wire types decodeField
+//	    accepts and the sizes it reads for the fixed-width types;
+//	(d) from preEncode: the order in which strings are interned — every addString call with the
+//	    symbolic path of its argument (`p.Sample[].Label[…][]`) under the symbolic paths of the
+//	    enclosing loops/conditions; from postDecode: the dense id tables (`len+N` long) and how many
+//	    index expressions on them are NOT under their `id < uint64(len(table))` guard — recognised
+//	    inline in postDecode or behind one generic helper type (dense slice + map, constructor,
+//	    methods); `none` when the id-table code has neither shape.
 //
-// Names of receivers, parameters and locals do not matter: before anything is printed, the receiver
-// is renamed `p`, parameters positionally (`b`, `m`, or `a0…`), locals declared by a top-level
-// statement of the function `g0, g1, …` and all other locals `v0, v1, …` (numbered per top-level
-// statement).  Formatting does not matter either: statements are printed one by one by go/printer
-// and white space is collapsed.  A source shape that is not recognised makes the generator return
-// an error (extractor exits non-zero ⇒ the Gen file is deleted ⇒ broken obligation).
+// Names of receivers, parameters and locals never matter (the receiver is renamed `p`, parameters
+// positionally, locals by declaration order), nor does formatting (nodes are printed one by one by
+// go/printer and white space is collapsed).  A statement of an encode method or of a decoder closure
+// that the translator cannot classify makes the generator return an error (extractor exits non-zero ⇒
+// the Gen file is deleted ⇒ broken obligation).
 package main
 
 import (
@@ -29,6 +36,7 @@ import (
 	"go/printer"
 	"go/token"
 	"regexp"
+	"sort"
 	"strconv"
 	"strings"
 )
@@ -39,7 +47,6 @@ type csEnc struct {
 	tag     int
 	fn      string
 	field   string
-	guard   string
 	nonZero []string
 }
 
@@ -58,26 +65,30 @@ type csMsg struct {
 	dec    []csDec
 }
 
-type csSite struct{ ctx, arg string }
+type csSite struct {
+	ctx []string
+	arg string
+}
 
 type csDense struct {
 	elem, table string
 	extra       int
-	guarded     int
+	unguarded   int
 }
 
 type csProto struct {
-	packedCondU, packedCondI string
-	packedU, packedI         int
-	varintCond               string
-	varintLimit              int
-	fieldShift, typeMask     int
-	wireTypes                []int
-	defaultRejects           bool
-	fixedSizes               [][2]int
+	packedU, packedI     int
+	varintLimit          int
+	fieldShift, typeMask int
+	wireTypes            []int
+	defaultRejects       bool
+	fixedSizes           [][2]int
 }
 
-type csCtx struct{ fset *token.FileSet }
+type csCtx struct {
+	fset   *token.FileSet
+	consts map[string]int // package-level integer constants of the file
+}
 
 var csSpace = regexp.MustCompile(`\s+`)
 
@@ -92,16 +103,53 @@ func (c *csCtx) text(n ast.Node) string {
 	return s
 }
 
-// stmts prints the statements of a block one by one, joined by "; ".
-func (c *csCtx) stmts(b *ast.BlockStmt) string {
-	var parts []string
-	for _, s := range b.List {
-		parts = append(parts, c.text(s))
+func csIntLit(e ast.Expr) (int, bool) {
+	bl, ok := ast.Unparen(e).(*ast.BasicLit)
+	if !ok || bl.Kind != token.INT {
+		return 0, false
 	}
-	return strings.Join(parts, "; ")
+	n, err := strconv.ParseInt(bl.Value, 0, 64)
+	if err != nil {
+		return 0, false
+	}
+	return int(n), true
 }
 
-// normalize alpha-renames the variables of one function: `fixed` names the receiver/parameters;
+// collectConsts records `const name = <integer literal>` declarations of a file.
+func (c *csCtx) collectConsts(f *ast.File) {
+	c.consts = map[string]int{}
+	for _, d := range f.Decls {
+		gd, ok := d.(*ast.GenDecl)
+		if !ok || gd.Tok != token.CONST {
+			continue
+		}
+		for _, sp := range gd.Specs {
+			vs := sp.(*ast.ValueSpec)
+			for i, n := range vs.Names {
+				if i < len(vs.Values) {
+					if v, ok := csIntLit(vs.Values[i]); ok {
+						c.consts[n.Name] = v
+					}
+				}
+			}
+		}
+	}
+}
+
+// intConst evaluates an integer literal or a package-level integer constant.
+func (c *csCtx) intConst(e ast.Expr) (int, bool) {
+	e = ast.Unparen(e)
+	if v, ok := csIntLit(e); ok {
+		return v, true
+	}
+	if id, ok := e.(*ast.Ident); ok && (id.Obj == nil || id.Obj.Kind == ast.Con) {
+		v, ok := c.consts[id.Name]
+		return v, ok
+	}
+	return 0, false
+}
+
+// csNormalize alpha-renames the variables of one function: `fixed` names the receiver/parameters;
 // range variables are named after the number of enclosing loops (`i<d>` for the key, `x<d>` for the
 // value); locals declared by a top-level statement become g0, g1, …; other locals v0, v1, … per
 // top-level statement.  (go/parser resolves local identifiers to *ast.Object; selectors are not
@@ -155,26 +203,22 @@ func csNormalize(fixed map[*ast.Object]string, body *ast.BlockStmt) {
 					depth++
 				}
 			}
-			rs, inRange := (ast.Node)(nil), false
+			var parent ast.Node
 			if len(stack) >= 2 {
-				rs = stack[len(stack)-2]
+				parent = stack[len(stack)-2]
 			}
-			if r, ok := rs.(*ast.RangeStmt); ok && r.Tok == token.DEFINE && (r.Key == ast.Expr(id) || r.Value == ast.Expr(id)) {
-				inRange = true
+			if r, ok := parent.(*ast.RangeStmt); ok && r.Tok == token.DEFINE && (r.Key == ast.Expr(id) || r.Value == ast.Expr(id)) {
 				if r.Key == ast.Expr(id) {
 					nm = fmt.Sprintf("i%d", depth-1)
 				} else {
 					nm = fmt.Sprintf("x%d", depth-1)
 				}
-			}
-			if !inRange {
-				if topLevel(id.Obj) {
-					nm = fmt.Sprintf("g%d", g)
-					g++
-				} else {
-					nm = fmt.Sprintf("v%d", v)
-					v++
-				}
+			} else if topLevel(id.Obj) {
+				nm = fmt.Sprintf("g%d", g)
+				g++
+			} else {
+				nm = fmt.Sprintf("v%d", v)
+				v++
 			}
 			names[id.Obj] = nm
 			id.Name = nm
@@ -183,7 +227,8 @@ func csNormalize(fixed map[*ast.Object]string, body *ast.BlockStmt) {
 	}
 }
 
-// csPath reports whether e is built from identifiers, selectors and index expressions only.
+// csPath reports whether e is built from identifiers, selectors, index expressions and type
+// assertions only (an expression that can be substituted for the local it defines).
 func csPath(e ast.Expr) bool {
 	switch x := e.(type) {
 	case *ast.Ident:
@@ -192,72 +237,188 @@ func csPath(e ast.Expr) bool {
 		return csPath(x.X)
 	case *ast.IndexExpr:
 		return csPath(x.X) && csPath(x.Index)
+	case *ast.TypeAssertExpr:
+		return csPath(x.X)
+	case *ast.ParenExpr:
+		return csPath(x.X)
 	}
 	return false
 }
 
-// resolveLocals replaces, in a normalised function body, every USE of a local that is defined
-// once by `v := <path expression>` by that expression, and every use of a `var ks []T` that is
-// filled by `for k := range M { ks = append(ks, k) }` (and sorted by `sort.Strings(ks)`) by
-// `keys(M)` / `sorted(keys(M))` — so that what is printed talks about fields, not temporaries.
-func (c *csCtx) resolveLocals(body *ast.BlockStmt) {
-	defs := map[*ast.Object]ast.Expr{}
-	decl := map[*ast.Ident]bool{}
-	keysOf := map[*ast.Object]ast.Expr{}
-	sorted := map[*ast.Object]bool{}
-	assigned := map[*ast.Object]int{}
+// csScope is what is known about the locals of one function body.
+type csScope struct {
+	defs     map[*ast.Object]ast.Expr       // v := <path expression>, assigned once
+	decl     map[*ast.Ident]bool            // the defining occurrences of those
+	keysOf   map[*ast.Object]ast.Expr       // ks filled by `for k := range M { ks = append(ks, k) }`
+	sorted   map[*ast.Object]bool           // … and passed to sort.Strings
+	assigned map[*ast.Object]int            // number of assignments
+	rangeVal map[*ast.Object]*ast.RangeStmt // value variable of a range loop
+	rangeKey map[*ast.Object]*ast.RangeStmt // key variable of a range loop
+	countIdx map[*ast.Object]ast.Expr       // i of `for i := 0; i < len(E); i++`  ↦ E
+}
+
+// countingLoop recognises `for i := 0; i < len(E); i++` and returns i's object and E.
+func (c *csCtx) countingLoop(fs *ast.ForStmt) (*ast.Object, ast.Expr) {
+	as, ok := fs.Init.(*ast.AssignStmt)
+	if !ok || as.Tok != token.DEFINE || len(as.Lhs) != 1 || len(as.Rhs) != 1 {
+		return nil, nil
+	}
+	id, ok := as.Lhs[0].(*ast.Ident)
+	if v, isInt := csIntLit(as.Rhs[0]); !ok || !isInt || v != 0 || id.Obj == nil {
+		return nil, nil
+	}
+	be, ok := fs.Cond.(*ast.BinaryExpr)
+	if !ok || be.Op != token.LSS {
+		return nil, nil
+	}
+	if x, ok := be.X.(*ast.Ident); !ok || x.Obj != id.Obj {
+		return nil, nil
+	}
+	call, ok := be.Y.(*ast.CallExpr)
+	if !ok || c.text(call.Fun) != "len" || len(call.Args) != 1 {
+		return nil, nil
+	}
+	if inc, ok := fs.Post.(*ast.IncDecStmt); !ok || inc.Tok != token.INC {
+		return nil, nil
+	}
+	return id.Obj, call.Args[0]
+}
+
+func (c *csCtx) scan(body *ast.BlockStmt) *csScope {
+	sc := &csScope{
+		defs: map[*ast.Object]ast.Expr{}, decl: map[*ast.Ident]bool{}, keysOf: map[*ast.Object]ast.Expr{},
+		sorted: map[*ast.Object]bool{}, assigned: map[*ast.Object]int{},
+		rangeVal: map[*ast.Object]*ast.RangeStmt{}, rangeKey: map[*ast.Object]*ast.RangeStmt{},
+		countIdx: map[*ast.Object]ast.Expr{},
+	}
 	ast.Inspect(body, func(n ast.Node) bool {
 		switch s := n.(type) {
 		case *ast.AssignStmt:
 			for _, l := range s.Lhs {
 				if id, ok := l.(*ast.Ident); ok && id.Obj != nil {
-					assigned[id.Obj]++
+					sc.assigned[id.Obj]++
 				}
 			}
 			if s.Tok == token.DEFINE && len(s.Lhs) == 1 && len(s.Rhs) == 1 {
 				if id, ok := s.Lhs[0].(*ast.Ident); ok && id.Obj != nil && csPath(s.Rhs[0]) {
-					defs[id.Obj] = s.Rhs[0]
-					decl[id] = true
+					sc.defs[id.Obj] = s.Rhs[0]
+					sc.decl[id] = true
 				}
 			}
+		case *ast.IncDecStmt:
+			if id, ok := s.X.(*ast.Ident); ok && id.Obj != nil {
+				sc.assigned[id.Obj]++
+			}
+		case *ast.ForStmt:
+			if o, e := c.countingLoop(s); o != nil {
+				sc.countIdx[o] = e
+			}
 		case *ast.RangeStmt:
+			if s.Tok == token.DEFINE {
+				if id, ok := s.Key.(*ast.Ident); ok && id.Obj != nil && id.Name != "_" {
+					sc.rangeKey[id.Obj] = s
+				}
+				if id, ok := s.Value.(*ast.Ident); ok && id.Obj != nil && id.Name != "_" {
+					sc.rangeVal[id.Obj] = s
+				}
+			}
 			if s.Key != nil && s.Value == nil && len(s.Body.List) == 1 {
 				if as, ok := s.Body.List[0].(*ast.AssignStmt); ok && as.Tok == token.ASSIGN && len(as.Lhs) == 1 && len(as.Rhs) == 1 {
 					id, ok1 := as.Lhs[0].(*ast.Ident)
 					call, ok2 := as.Rhs[0].(*ast.CallExpr)
 					if ok1 && ok2 && id.Obj != nil && len(call.Args) == 2 && c.text(call.Fun) == "append" &&
 						c.text(call.Args[0]) == id.Name && c.text(call.Args[1]) == c.text(s.Key) {
-						keysOf[id.Obj] = s.X
+						sc.keysOf[id.Obj] = s.X
 					}
 				}
 			}
 		case *ast.ExprStmt:
 			if call, ok := s.X.(*ast.CallExpr); ok && c.text(call.Fun) == "sort.Strings" && len(call.Args) == 1 {
 				if id, ok := call.Args[0].(*ast.Ident); ok && id.Obj != nil {
-					sorted[id.Obj] = true
+					sc.sorted[id.Obj] = true
 				}
 			}
 		}
 		return true
 	})
+	return sc
+}
+
+// substituteAliases replaces, in a normalised function body, every USE of a local that is defined
+// once by `v := <path expression>` (e.g. `pp := m.(*Profile)`) by that expression.
+func (c *csCtx) substituteAliases(body *ast.BlockStmt) {
+	sc := c.scan(body)
 	ast.Inspect(body, func(n ast.Node) bool {
 		id, ok := n.(*ast.Ident)
-		if !ok || id.Obj == nil || decl[id] {
+		if !ok || id.Obj == nil || sc.decl[id] {
 			return true
 		}
-		if e, ok := defs[id.Obj]; ok && assigned[id.Obj] == 1 {
+		if e, ok := sc.defs[id.Obj]; ok && sc.assigned[id.Obj] == 1 {
 			id.Name = c.text(e)
-		} else if x, ok := keysOf[id.Obj]; ok && assigned[id.Obj] == 1 {
-			id.Name = "keys(" + c.text(x) + ")"
-			if sorted[id.Obj] {
-				id.Name = "sorted(" + id.Name + ")"
-			}
 		}
 		return true
 	})
 }
 
-// params returns the objects of the parameters of a function type, in order.
+// sym prints an expression symbolically: locals are replaced by what they stand for — the value
+// variable of `range E` by `E[]`, its key/index variable by `idx(E)` (and `E[idx(E)]` by `E[]`), a
+// local defined once by a path expression by that expression, a key list collected from a map M
+// by `keys(M)` / `sorted(keys(M))`.
+func (c *csCtx) sym(sc *csScope, e ast.Expr) string {
+	switch x := e.(type) {
+	case *ast.Ident:
+		if x.Obj == nil {
+			return x.Name
+		}
+		if rs, ok := sc.rangeVal[x.Obj]; ok {
+			return c.sym(sc, rs.X) + "[]"
+		}
+		if rs, ok := sc.rangeKey[x.Obj]; ok {
+			return "idx(" + c.sym(sc, rs.X) + ")"
+		}
+		if of, ok := sc.countIdx[x.Obj]; ok {
+			return "idx(" + c.sym(sc, of) + ")"
+		}
+		if d, ok := sc.defs[x.Obj]; ok && sc.assigned[x.Obj] == 1 {
+			return c.sym(sc, d)
+		}
+		if m, ok := sc.keysOf[x.Obj]; ok && sc.assigned[x.Obj] == 1 {
+			s := "keys(" + c.sym(sc, m) + ")"
+			if sc.sorted[x.Obj] {
+				s = "sorted(" + s + ")"
+			}
+			return s
+		}
+		return x.Name
+	case *ast.SelectorExpr:
+		return c.sym(sc, x.X) + "." + x.Sel.Name
+	case *ast.IndexExpr:
+		base := c.sym(sc, x.X)
+		if c.sym(sc, x.Index) == "idx("+base+")" {
+			return base + "[]"
+		}
+		return base + "[" + c.sym(sc, x.Index) + "]"
+	case *ast.ParenExpr:
+		return "(" + c.sym(sc, x.X) + ")"
+	case *ast.UnaryExpr:
+		return x.Op.String() + c.sym(sc, x.X)
+	case *ast.StarExpr:
+		return "*" + c.sym(sc, x.X)
+	case *ast.BinaryExpr:
+		return c.sym(sc, x.X) + " " + x.Op.String() + " " + c.sym(sc, x.Y)
+	case *ast.CallExpr:
+		var args []string
+		for _, a := range x.Args {
+			args = append(args, c.sym(sc, a))
+		}
+		return c.text(x.Fun) + "(" + strings.Join(args, ", ") + ")"
+	case *ast.BasicLit:
+		return x.Value
+	}
+	return c.text(e)
+}
+
+// csParams returns the objects of the parameters of a function type, in order.
 func csParams(ft *ast.FuncType) []*ast.Object {
 	var out []*ast.Object
 	if ft.Params == nil {
@@ -271,6 +432,7 @@ func csParams(ft *ast.FuncType) []*ast.Object {
 	return out
 }
 
+// csRecvType returns the name of the receiver's type (`T`, `*T`, `T[X]`, `*T[X]`).
 func csRecvType(fd *ast.FuncDecl) string {
 	if fd.Recv == nil || len(fd.Recv.List) != 1 {
 		return ""
@@ -279,23 +441,23 @@ func csRecvType(fd *ast.FuncDecl) string {
 	if st, ok := t.(*ast.StarExpr); ok {
 		t = st.X
 	}
+	if ix, ok := t.(*ast.IndexExpr); ok {
+		t = ix.X
+	}
 	if id, ok := t.(*ast.Ident); ok {
 		return id.Name
 	}
 	return ""
 }
 
-func csIntLit(e ast.Expr) (int, bool) {
-	bl, ok := ast.Unparen(e).(*ast.BasicLit)
-	if !ok || bl.Kind != token.INT {
-		return 0, false
+func csRecvObj(fd *ast.FuncDecl) *ast.Object {
+	if fd.Recv == nil || len(fd.Recv.List) != 1 || len(fd.Recv.List[0].Names) != 1 {
+		return nil
 	}
-	n, err := strconv.ParseInt(bl.Value, 0, 64)
-	if err != nil {
-		return 0, false
-	}
-	return int(n), true
+	return fd.Recv.List[0].Names[0].Obj
 }
+
+// ---- (a) encode methods --------------------------------------------------------------------
 
 // field returns the path of `p.<path>` relative to the (renamed) receiver `p`.
 func (c *csCtx) field(e ast.Expr) (string, error) {
@@ -329,14 +491,14 @@ func (c *csCtx) encCall(s ast.Stmt) (fn string, tag int, arg ast.Expr, err error
 	if c.text(call.Args[0]) != "b" {
 		return "", 0, nil, fmt.Errorf("first argument is not the buffer parameter: %s", c.text(s))
 	}
-	tag, ok = csIntLit(call.Args[1])
+	tag, ok = c.intConst(call.Args[1])
 	if !ok {
-		return "", 0, nil, fmt.Errorf("field tag is not an integer literal: %s", c.text(s))
+		return "", 0, nil, fmt.Errorf("field tag is not an integer constant: %s", c.text(s))
 	}
 	return id.Name, tag, call.Args[2], nil
 }
 
-// guardCond recognises `<v> != nil && (<v>.a != 0 || <v>.b != 0 …)` and returns [a, b, …].
+// guardCond recognises `<v> != nil && (<v>.a != 0 || <v>.b != 0 …)` and returns the SET {a, b, …}.
 func (c *csCtx) guardCond(v string, e ast.Expr) ([]string, error) {
 	be, ok := ast.Unparen(e).(*ast.BinaryExpr)
 	if !ok || be.Op != token.LAND || c.text(be.X) != v+" != nil" {
@@ -366,17 +528,39 @@ func (c *csCtx) guardCond(v string, e ast.Expr) ([]string, error) {
 	if err := walk(be.Y); err != nil {
 		return nil, err
 	}
+	sort.Strings(out)
 	return out, nil
 }
 
 // encodeMethod translates the body of `func (p T) encode(b *buffer)`.
 func (c *csCtx) encodeMethod(fd *ast.FuncDecl) ([]csEnc, error) {
 	ps := csParams(fd.Type)
-	if len(ps) != 1 || len(fd.Recv.List[0].Names) != 1 {
+	if len(ps) != 1 || csRecvObj(fd) == nil {
 		return nil, fmt.Errorf("encode must have a named receiver and one parameter")
 	}
-	csNormalize(map[*ast.Object]string{fd.Recv.List[0].Names[0].Obj: "p", ps[0]: "b"}, fd.Body)
+	csNormalize(map[*ast.Object]string{csRecvObj(fd): "p", ps[0]: "b"}, fd.Body)
 	var out []csEnc
+	loop := func(st ast.Stmt, x ast.Expr, body *ast.BlockStmt, elemOK func(arg, f string) bool) error {
+		if len(body.List) != 1 {
+			return fmt.Errorf("unrecognised loop: %s", c.text(st))
+		}
+		f, err := c.field(x)
+		if err != nil {
+			return fmt.Errorf("%s: %v", c.text(st), err)
+		}
+		fn, tag, arg, err := c.encCall(body.List[0])
+		if err != nil {
+			return err
+		}
+		if fn != "encodeMessage" {
+			return fmt.Errorf("loop body is not encodeMessage: %s", c.text(st))
+		}
+		if !elemOK(c.text(arg), f) {
+			return fmt.Errorf("loop does not encode the element it ranges over: %s", c.text(st))
+		}
+		out = append(out, csEnc{tag: tag, fn: "encodeMessage-in-loop", field: f})
+		return nil
+	}
 	for _, st := range fd.Body.List {
 		switch s := st.(type) {
 		case *ast.ExprStmt:
@@ -395,40 +579,65 @@ func (c *csCtx) encodeMethod(fd *ast.FuncDecl) ([]csEnc, error) {
 		case *ast.RangeStmt:
 			// for _, x := range p.F { encodeMessage(b, T, x) }   or
 			// for i := range p.F { encodeMessage(b, T, &p.F[i]) }
-			if s.Tok != token.DEFINE || len(s.Body.List) != 1 {
+			if s.Tok != token.DEFINE {
 				return nil, fmt.Errorf("unrecognised loop: %s", c.text(s))
 			}
-			f, err := c.field(s.X)
-			if err != nil {
-				return nil, fmt.Errorf("%s: %v", c.text(s), err)
-			}
-			fn, tag, arg, err := c.encCall(s.Body.List[0])
+			err := loop(s, s.X, s.Body, func(a, f string) bool {
+				if s.Value != nil && a == c.text(s.Value) {
+					return true
+				}
+				if s.Key != nil && c.text(s.Key) != "_" {
+					elem := "p." + f + "[" + c.text(s.Key) + "]"
+					return a == "&"+elem || a == elem
+				}
+				return false
+			})
 			if err != nil {
 				return nil, err
 			}
-			if fn != "encodeMessage" {
-				return nil, fmt.Errorf("loop body is not encodeMessage: %s", c.text(s))
+		case *ast.ForStmt:
+			// for i := 0; i < len(p.F); i++ { encodeMessage(b, T, &p.F[i]) }
+			o, e := c.countingLoop(s)
+			if o == nil {
+				return nil, fmt.Errorf("unrecognised loop: %s", c.text(s))
 			}
-			a := c.text(arg)
-			okElem := s.Value != nil && (s.Key == nil || c.text(s.Key) == "_") && a == c.text(s.Value)
-			okIdx := s.Value == nil && s.Key != nil && a == "&p."+f+"["+c.text(s.Key)+"]"
-			if !okElem && !okIdx {
-				return nil, fmt.Errorf("loop does not encode the element it ranges over: %s", c.text(s))
+			idx := c.text(s.Init.(*ast.AssignStmt).Lhs[0])
+			err := loop(s, e, s.Body, func(a, f string) bool {
+				elem := "p." + f + "[" + idx + "]"
+				return a == "&"+elem || a == elem
+			})
+			if err != nil {
+				return nil, err
 			}
-			out = append(out, csEnc{tag: tag, fn: "encodeMessage-in-loop", field: f})
 		case *ast.IfStmt:
 			// if pt := p.F; pt != nil && (pt.a != 0 || pt.b != 0) { encodeMessage(b, T, p.F) }
-			if s.Else != nil || s.Init == nil || len(s.Body.List) != 1 {
+			if s.Else != nil || len(s.Body.List) != 1 {
 				return nil, fmt.Errorf("unrecognised conditional: %s", c.text(s))
 			}
-			as, ok := s.Init.(*ast.AssignStmt)
-			if !ok || as.Tok != token.DEFINE || len(as.Lhs) != 1 || len(as.Rhs) != 1 {
-				return nil, fmt.Errorf("unrecognised guard initialiser: %s", c.text(s))
-			}
-			v := c.text(as.Lhs[0])
-			f, err := c.field(as.Rhs[0])
-			if err != nil {
-				return nil, fmt.Errorf("%s: %v", c.text(s), err)
+			var v, f string
+			var err error
+			if s.Init != nil {
+				as, ok := s.Init.(*ast.AssignStmt)
+				if !ok || as.Tok != token.DEFINE || len(as.Lhs) != 1 || len(as.Rhs) != 1 {
+					return nil, fmt.Errorf("unrecognised guard initialiser: %s", c.text(s))
+				}
+				v = c.text(as.Lhs[0])
+				if f, err = c.field(as.Rhs[0]); err != nil {
+					return nil, fmt.Errorf("%s: %v", c.text(s), err)
+				}
+			} else {
+				be, ok := ast.Unparen(s.Cond).(*ast.BinaryExpr)
+				if !ok || be.Op != token.LAND {
+					return nil, fmt.Errorf("unrecognised conditional: %s", c.text(s))
+				}
+				nn, ok := ast.Unparen(be.X).(*ast.BinaryExpr)
+				if !ok || nn.Op != token.NEQ || c.text(nn.Y) != "nil" {
+					return nil, fmt.Errorf("unrecognised conditional: %s", c.text(s))
+				}
+				v = c.text(nn.X)
+				if f, err = c.field(nn.X); err != nil {
+					return nil, fmt.Errorf("%s: %v", c.text(s), err)
+				}
 			}
 			nz, err := c.guardCond(v, s.Cond)
 			if err != nil {
@@ -441,8 +650,7 @@ func (c *csCtx) encodeMethod(fd *ast.FuncDecl) ([]csEnc, error) {
 			if a := c.text(arg); fn != "encodeMessage" || (a != "p."+f && a != v) {
 				return nil, fmt.Errorf("guarded statement does not encode the guarded message: %s", c.text(s))
 			}
-			out = append(out, csEnc{tag: tag, fn: "encodeMessage-guarded", field: f,
-				guard: c.text(s.Init) + "; " + c.text(s.Cond), nonZero: nz})
+			out = append(out, csEnc{tag: tag, fn: "encodeMessage-guarded", field: f, nonZero: nz})
 		default:
 			return nil, fmt.Errorf("unrecognised statement: %s", c.text(st))
 		}
@@ -450,50 +658,39 @@ func (c *csCtx) encodeMethod(fd *ast.FuncDecl) ([]csEnc, error) {
 	return out, nil
 }
 
-// The pinned closure shapes (after alpha-normalisation; see the package comment).
-type csShape struct {
-	fn string
-	re *regexp.Regexp
-	// indices of the capture groups: receiver types, fields (all must agree), message type
-	recv, field []int
-	msg         int
-}
+// ---- (b) decoder closures ------------------------------------------------------------------
 
-var csShapes = []csShape{
-	{fn: "", // plain: the decode function is its own name
-		re:   regexp.MustCompile(`^return (decode\w+)\(b, &m\.\(\*(\w+)\)\.(\w+)\)$`),
-		recv: []int{2}, field: []int{3}},
-	{fn: "decodeMessage/append-new",
-		re:   regexp.MustCompile(`^g0 := new\((\w+)\); g1 := m\.\(\*(\w+)\); g1\.(\w+) = append\(g1\.(\w+), g0\); return decodeMessage\(b, g0\)$`),
-		recv: []int{2}, field: []int{3, 4}, msg: 1},
-	{fn: "decodeMessage/append-new-shared-lines",
-		re:   regexp.MustCompile(`^g0 := new\((\w+)\); g0\.Line = b\.tmpLines\[:0\]; g1 := m\.\(\*(\w+)\); g1\.(\w+) = append\(g1\.(\w+), g0\); g2 := decodeMessage\(b, g0\); b\.tmpLines = g0\.Line\[:0\]; g0\.Line = append\(\[\]Line\(nil\), g0\.Line\.\.\.\); return g2$`),
-		recv: []int{2}, field: []int{3, 4}, msg: 1},
-	{fn: "decodeMessage/append-value",
-		re:   regexp.MustCompile(`^g0 := m\.\(\*(\w+)\); g1 := len\(g0\.(\w+)\); g0\.(\w+) = append\(g0\.(\w+), (\w+)\{\}\); return decodeMessage\(b, &g0\.(\w+)\[g1\]\)$`),
-		recv: []int{1}, field: []int{2, 3, 4, 6}, msg: 5},
-	{fn: "decodeMessage/set-new",
-		re:   regexp.MustCompile(`^g0 := new\((\w+)\); g1 := m\.\(\*(\w+)\); g1\.(\w+) = g0; return decodeMessage\(b, g0\)$`),
-		recv: []int{2}, field: []int{3}, msg: 1},
-	{fn: "decodeStrings/first-must-be-empty",
-		re:   regexp.MustCompile(`^g0 := decodeStrings\(b, &m\.\(\*(\w+)\)\.(\w+)\); if g0 != nil \{ return g0 \}; if m\.\(\*(\w+)\)\.(\w+)\[0\] != "" \{ return errors\.New\("string_table\[0\] must be ''"\) \}; return nil$`),
-		recv: []int{1, 3}, field: []int{2, 4}},
-	{fn: "decodeInt64/reject-if-set",
-		re:   regexp.MustCompile(`^if m\.\(\*(\w+)\)\.(\w+) != 0 \{ return errConcatProfile \}; return decodeInt64\(b, &m\.\(\*(\w+)\)\.(\w+)\)$`),
-		recv: []int{1, 3}, field: []int{2, 4}},
-}
+// Statement forms of a decoder closure, after alpha-normalisation and alias substitution
+// (L = a local, R = `m.(*T)`).
+var (
+	csL = `([gv]\d+)`
+	csR = `m\.\(\*(\w+)\)`
 
-func csAllEqual(m []string, idx []int) (string, bool) {
-	v := m[idx[0]]
-	for _, i := range idx[1:] {
-		if m[i] != v {
-			return "", false
-		}
-	}
-	return v, true
-}
+	csStAlias     = regexp.MustCompile(`^` + csL + ` := ` + csR + `$`)
+	csStNew       = regexp.MustCompile(`^` + csL + ` := (?:new\((\w+)\)|&(\w+)\{\})$`)
+	csStLen       = regexp.MustCompile(`^` + csL + ` := len\(` + csR + `\.(\w+)\)$`)
+	csStAppendVar = regexp.MustCompile(`^` + csR + `\.(\w+) = append\(` + csR + `\.(\w+), ` + csL + `\)$`)
+	csStSetVar    = regexp.MustCompile(`^` + csR + `\.(\w+) = ` + csL + `$`)
+	csStAppendZ   = regexp.MustCompile(`^` + csR + `\.(\w+) = append\(` + csR + `\.(\w+), (\w+)\{\}\)$`)
+	csStRetCall   = regexp.MustCompile(`^return (decode\w+)\(b, (.+)\)$`)
+	csStAsgCall   = regexp.MustCompile(`^` + csL + ` := (decode\w+)\(b, (.+)\)$`)
+	csStIfCall    = regexp.MustCompile(`^if ` + csL + ` := (decode\w+)\(b, (.+)\); ` + csL + ` != nil \{ return ` + csL + ` \}$`)
+	csStErrCheck  = regexp.MustCompile(`^if ` + csL + ` != nil \{ return ` + csL + ` \}$`)
+	csStRetVar    = regexp.MustCompile(`^return ` + csL + `$`)
+	csStRejectSet = regexp.MustCompile(`^if ` + csR + `\.(\w+) != 0 \{ return errConcatProfile \}$`)
+	csStFirstEmp  = regexp.MustCompile(`^if ` + csR + `\.(\w+)\[0\] != "" \{ return errors\.New\("[^"]*"\) \}$`)
+	csStScratch1  = regexp.MustCompile(`^` + csL + `\.Line = b\.tmpLines\[:0\]$`)
+	csStScratch2  = regexp.MustCompile(`^b\.tmpLines = ` + csL + `\.Line\[:0\]$`)
+	csStScratch3  = regexp.MustCompile(`^` + csL + `\.Line = append\(\[\]Line\(nil\), ` + csL + `\.Line\.\.\.\)$`)
 
-// decoderEntry translates one element of a `[]decoder{…}` literal.
+	csArgDirect = regexp.MustCompile(`^&` + csR + `\.(\w+)$`)
+	csArgVar    = regexp.MustCompile(`^` + csL + `$`)
+	csArgElem   = regexp.MustCompile(`^&` + csR + `\.(\w+)\[` + csL + `\]$`)
+)
+
+// decoderEntry translates one element of a `[]decoder{…}` literal into facts: which decode function
+// is called on which field of which receiver type, how a nested message is attached to the field,
+// which additional checks are made, and that the closure returns the decoder's error.
 func (c *csCtx) decoderEntry(i int, el ast.Expr) (csDec, error) {
 	if id, ok := el.(*ast.Ident); ok && id.Name == "nil" {
 		return csDec{index: i, fn: "nil"}, nil
@@ -507,27 +704,139 @@ func (c *csCtx) decoderEntry(i int, el ast.Expr) (csDec, error) {
 		return csDec{}, fmt.Errorf("entry %d: decoder closures take (b *buffer, m message)", i)
 	}
 	csNormalize(map[*ast.Object]string{ps[0]: "b", ps[1]: "m"}, fl.Body)
-	body := c.stmts(fl.Body)
-	for _, sh := range csShapes {
-		m := sh.re.FindStringSubmatch(body)
-		if m == nil {
-			continue
-		}
-		recv, ok1 := csAllEqual(m, sh.recv)
-		field, ok2 := csAllEqual(m, sh.field)
-		if !ok1 || !ok2 {
-			return csDec{}, fmt.Errorf("entry %d: closure touches more than one field/type: %s", i, body)
-		}
-		d := csDec{index: i, fn: sh.fn, recv: recv, field: field}
-		if sh.fn == "" {
-			d.fn = m[1]
-		}
-		if sh.msg != 0 {
-			d.msg = m[sh.msg]
-		}
-		return d, nil
+	c.substituteAliases(fl.Body)
+
+	bad := func(format string, a ...any) (csDec, error) {
+		return csDec{}, fmt.Errorf("entry %d: "+format, append([]any{i}, a...)...)
 	}
-	return csDec{}, fmt.Errorf("entry %d: decoder closure of unknown shape: %s", i, body)
+	recvs := map[string]bool{}
+	newVar := map[string]string{}    // local ↦ message type it points to
+	lenVar := map[string][2]any{}    // local ↦ (field, statement index)
+	appendedZ := map[string][2]any{} // field ↦ (message type, statement index)
+	attach := map[string][2]string{} // local ↦ (how, field)
+	var fn, arg, errVar, rejectField, firstEmptyField string
+	callAt, scratch := -1, [3]int{-1, -1, -1}
+	returned, errChecked := false, false
+	n := len(fl.Body.List)
+	for k, st := range fl.Body.List {
+		s := c.text(st)
+		last := k == n-1
+		if m := csStAlias.FindStringSubmatch(s); m != nil {
+			recvs[m[2]] = true
+		} else if m := csStNew.FindStringSubmatch(s); m != nil {
+			newVar[m[1]] = m[2] + m[3]
+		} else if m := csStLen.FindStringSubmatch(s); m != nil {
+			recvs[m[2]] = true
+			lenVar[m[1]] = [2]any{m[3], k}
+		} else if m := csStAppendVar.FindStringSubmatch(s); m != nil && m[2] == m[4] && newVar[m[5]] != "" {
+			recvs[m[1]], recvs[m[3]] = true, true
+			if _, dup := attach[m[5]]; dup {
+				return bad("message attached twice: %s", s)
+			}
+			attach[m[5]] = [2]string{"append-new", m[2]}
+		} else if m := csStSetVar.FindStringSubmatch(s); m != nil && newVar[m[3]] != "" {
+			recvs[m[1]] = true
+			if _, dup := attach[m[3]]; dup {
+				return bad("message attached twice: %s", s)
+			}
+			attach[m[3]] = [2]string{"set-new", m[2]}
+		} else if m := csStAppendZ.FindStringSubmatch(s); m != nil && m[2] == m[4] {
+			recvs[m[1]], recvs[m[3]] = true, true
+			appendedZ[m[2]] = [2]any{m[5], k}
+		} else if m := csStRetCall.FindStringSubmatch(s); m != nil && last && callAt < 0 {
+			fn, arg, callAt, returned = m[1], m[2], k, true
+		} else if m := csStAsgCall.FindStringSubmatch(s); m != nil && callAt < 0 {
+			errVar, fn, arg, callAt = m[1], m[2], m[3], k
+		} else if m := csStIfCall.FindStringSubmatch(s); m != nil && callAt < 0 && m[1] == m[4] && m[1] == m[5] {
+			errVar, fn, arg, callAt, errChecked = m[1], m[2], m[3], k, true
+		} else if m := csStErrCheck.FindStringSubmatch(s); m != nil && m[1] == m[2] && m[1] == errVar && k == callAt+1 {
+			errChecked = true
+		} else if m := csStRetVar.FindStringSubmatch(s); m != nil && m[1] == errVar && last {
+			returned = true
+		} else if s == "return nil" && last && errChecked {
+			returned = true
+		} else if m := csStRejectSet.FindStringSubmatch(s); m != nil && callAt < 0 && rejectField == "" {
+			recvs[m[1]] = true
+			rejectField = m[2]
+		} else if m := csStFirstEmp.FindStringSubmatch(s); m != nil && errChecked && firstEmptyField == "" {
+			recvs[m[1]] = true
+			firstEmptyField = m[2]
+		} else if m := csStScratch1.FindStringSubmatch(s); m != nil && newVar[m[1]] != "" && callAt < 0 {
+			scratch[0] = k
+		} else if m := csStScratch2.FindStringSubmatch(s); m != nil && newVar[m[1]] != "" && callAt >= 0 {
+			scratch[1] = k
+		} else if m := csStScratch3.FindStringSubmatch(s); m != nil && m[1] == m[2] && newVar[m[1]] != "" && scratch[1] >= 0 {
+			scratch[2] = k
+		} else {
+			return bad("statement of a decoder closure not understood: %s", s)
+		}
+	}
+	if callAt < 0 || !returned {
+		return bad("closure does not return the result of one decode call")
+	}
+	d := csDec{index: i, fn: fn}
+	var mods []string
+	if m := csArgDirect.FindStringSubmatch(arg); m != nil {
+		recvs[m[1]] = true
+		d.field = m[2]
+	} else if m := csArgVar.FindStringSubmatch(arg); m != nil && newVar[m[1]] != "" {
+		at, ok := attach[m[1]]
+		if !ok {
+			return bad("decoded message is attached to no field")
+		}
+		d.field, d.msg = at[1], newVar[m[1]]
+		mods = append(mods, at[0])
+	} else if m := csArgElem.FindStringSubmatch(arg); m != nil {
+		recvs[m[1]] = true
+		lv, ok1 := lenVar[m[3]]
+		az, ok2 := appendedZ[m[2]]
+		if !ok1 || !ok2 || lv[0].(string) != m[2] || !(lv[1].(int) < az[1].(int) && az[1].(int) < callAt) {
+			return bad("element decoded in place is not the one just appended: %s", arg)
+		}
+		d.field, d.msg = m[2], az[0].(string)
+		mods = append(mods, "append-value")
+	} else {
+		return bad("target of the decode call not understood: %s", arg)
+	}
+	for v := range attach {
+		if csArgVar.FindStringSubmatch(arg) == nil || v != arg {
+			return bad("a message is attached that is not the decoded one")
+		}
+	}
+	if scratch != [3]int{-1, -1, -1} {
+		if scratch[0] < 0 || scratch[1] < 0 || scratch[2] < 0 {
+			return bad("incomplete handling of the shared b.tmpLines scratch space")
+		}
+		if len(mods) == 1 && mods[0] == "append-new" {
+			mods[0] = "append-new-shared-lines"
+		} else {
+			mods = append(mods, "shared-lines")
+		}
+	}
+	if rejectField != "" {
+		if rejectField == d.field {
+			mods = append(mods, "reject-if-set")
+		} else {
+			mods = append(mods, "reject-if-set("+rejectField+")")
+		}
+	}
+	if firstEmptyField != "" {
+		if firstEmptyField == d.field {
+			mods = append(mods, "first-must-be-empty")
+		} else {
+			mods = append(mods, "first-must-be-empty("+firstEmptyField+")")
+		}
+	}
+	if len(mods) > 0 {
+		d.fn += "/" + strings.Join(mods, "+")
+	}
+	if len(recvs) != 1 {
+		return bad("closure asserts %d receiver types", len(recvs))
+	}
+	for r := range recvs {
+		d.recv = r
+	}
+	return d, nil
 }
 
 func csFuncs(f *ast.File) map[string]*ast.FuncDecl {
@@ -618,56 +927,37 @@ func (c *csCtx) messages(f *ast.File) ([]csMsg, error) {
 
 // ---- (d) preEncode / postDecode ------------------------------------------------------------
 
-// header prints the head of a for/range/if statement.
-func (c *csCtx) header(n ast.Node) string {
-	switch s := n.(type) {
-	case *ast.RangeStmt:
-		h := "for "
-		if s.Key != nil {
-			h += c.text(s.Key)
-			if s.Value != nil {
-				h += ", " + c.text(s.Value)
-			}
-			h += " " + s.Tok.String() + " "
-		}
-		return h + "range " + c.text(s.X)
-	case *ast.IfStmt:
-		h := "if "
-		if s.Init != nil {
-			h += c.text(s.Init) + "; "
-		}
-		return h + c.text(s.Cond)
-	case *ast.ForStmt:
-		h := "for "
-		if s.Init != nil {
-			h += c.text(s.Init)
-		}
-		h += "; "
-		if s.Cond != nil {
-			h += c.text(s.Cond)
-		}
-		h += "; "
-		if s.Post != nil {
-			h += c.text(s.Post)
-		}
-		return h
-	case *ast.SwitchStmt, *ast.TypeSwitchStmt, *ast.SelectStmt:
-		return "switch"
-	case *ast.CaseClause:
-		return "case " + c.text(s)
-	case *ast.FuncLit:
-		return "func"
-	}
-	return ""
-}
-
-// internOrder lists the addString calls of preEncode in source order with their enclosing headers.
+// internOrder lists the addString calls of preEncode in source order: the symbolic path of the
+// interned expression under the symbolic paths of the enclosing loops and conditions.
 func (c *csCtx) internOrder(fd *ast.FuncDecl) ([]csSite, error) {
-	if len(fd.Recv.List[0].Names) != 1 {
+	if csRecvObj(fd) == nil {
 		return nil, fmt.Errorf("preEncode has no named receiver")
 	}
-	csNormalize(map[*ast.Object]string{fd.Recv.List[0].Names[0].Obj: "p"}, fd.Body)
-	c.resolveLocals(fd.Body)
+	csNormalize(map[*ast.Object]string{csRecvObj(fd): "p"}, fd.Body)
+	sc := c.scan(fd.Body)
+	header := func(n ast.Node) string {
+		switch s := n.(type) {
+		case *ast.RangeStmt:
+			return "range " + c.sym(sc, s.X)
+		case *ast.ForStmt:
+			if o, e := c.countingLoop(s); o != nil {
+				return "range " + c.sym(sc, e)
+			}
+			if s.Cond != nil {
+				return "for " + c.sym(sc, s.Cond)
+			}
+			return "for"
+		case *ast.IfStmt:
+			return "if " + c.sym(sc, s.Cond)
+		case *ast.SwitchStmt, *ast.TypeSwitchStmt, *ast.SelectStmt:
+			return "switch"
+		case *ast.CaseClause:
+			return "case"
+		case *ast.FuncLit:
+			return "func"
+		}
+		return ""
+	}
 	var out []csSite
 	var stack []ast.Node
 	var bad error
@@ -681,9 +971,9 @@ func (c *csCtx) internOrder(fd *ast.FuncDecl) ([]csSite, error) {
 				if len(call.Args) != 2 {
 					bad = fmt.Errorf("addString with %d arguments", len(call.Args))
 				} else {
-					var ctx []string
+					ctx := []string{}
 					for i, s := range stack {
-						h := c.header(s)
+						h := header(s)
 						if ifs, ok := s.(*ast.IfStmt); ok && i+1 < len(stack) && stack[i+1] == ifs.Else {
 							h = "else of " + h
 						}
@@ -691,7 +981,7 @@ func (c *csCtx) internOrder(fd *ast.FuncDecl) ([]csSite, error) {
 							ctx = append(ctx, h)
 						}
 					}
-					out = append(out, csSite{ctx: strings.Join(ctx, " { "), arg: c.text(call.Args[1])})
+					out = append(out, csSite{ctx: ctx, arg: c.sym(sc, call.Args[1])})
 				}
 			}
 		}
@@ -707,15 +997,83 @@ func (c *csCtx) internOrder(fd *ast.FuncDecl) ([]csSite, error) {
 	return out, nil
 }
 
-var csMakeDense = regexp.MustCompile(`^make\(\[\]\*(\w+), len\(p\.(\w+)\)\+(\d+)\)$`)
+var (
+	csMakeInline = regexp.MustCompile(`^make\(\[\]\*(\w+), (?:len\(p\.(\w+)\) ?\+ ?(\d+)|(\d+) ?\+ ?len\(p\.(\w+)\))\)$`)
+	csMakeHelper = regexp.MustCompile(`^make\(\[\]\*(\w+), (?:a0 ?\+ ?(\d+)|(\d+) ?\+ ?a0)\)$`)
+	csLenField   = regexp.MustCompile(`^len\(p\.(\w+)\)$`)
+)
 
-// denseTables finds `x := make([]*T, len(p.F)+N)` in postDecode and checks that every index
-// expression on x sits in the then-branch of `if … idx < uint64(len(x))`.
-func (c *csCtx) denseTables(fd *ast.FuncDecl) ([]csDense, error) {
-	if len(fd.Recv.List[0].Names) != 1 {
-		return nil, fmt.Errorf("postDecode has no named receiver")
+// unguarded counts the index expressions `<tbl>[idx]` inside `root` that are NOT protected by the
+// guard `idx < uint64(len(<tbl>))`: either the then-branch of such an `if`, or an earlier statement of
+// an enclosing block `if idx >= uint64(len(<tbl>)) { …; return/continue/break }`.
+func (c *csCtx) unguarded(root ast.Node, isTable func(e ast.Expr) bool) (sites, bad int) {
+	terminates := func(b *ast.BlockStmt) bool {
+		if len(b.List) == 0 {
+			return false
+		}
+		switch s := b.List[len(b.List)-1].(type) {
+		case *ast.ReturnStmt:
+			return true
+		case *ast.BranchStmt:
+			return s.Tok == token.CONTINUE || s.Tok == token.BREAK
+		case *ast.ExprStmt:
+			if call, ok := s.X.(*ast.CallExpr); ok {
+				return c.text(call.Fun) == "panic"
+			}
+		}
+		return false
 	}
-	csNormalize(map[*ast.Object]string{fd.Recv.List[0].Names[0].Obj: "p"}, fd.Body)
+	var stack []ast.Node
+	ast.Inspect(root, func(n ast.Node) bool {
+		if n == nil {
+			stack = stack[:len(stack)-1]
+			return true
+		}
+		if ie, ok := n.(*ast.IndexExpr); ok && isTable(ie.X) {
+			sites++
+			idx, tbl := c.text(ie.Index), c.text(ie.X)
+			lt := map[string]bool{idx + " < uint64(len(" + tbl + "))": true, "uint64(len(" + tbl + ")) > " + idx: true}
+			ge := map[string]bool{idx + " >= uint64(len(" + tbl + "))": true, "uint64(len(" + tbl + ")) <= " + idx: true}
+			found := false
+			for i, s := range stack {
+				if ifs, ok := s.(*ast.IfStmt); ok && i+1 < len(stack) && stack[i+1] == ast.Node(ifs.Body) && lt[c.text(ifs.Cond)] {
+					found = true
+				}
+				if blk, ok := s.(*ast.BlockStmt); ok && i+1 < len(stack) {
+					for _, st := range blk.List {
+						if ast.Node(st) == stack[i+1] {
+							break
+						}
+						if ifs, ok := st.(*ast.IfStmt); ok && ifs.Init == nil && ge[c.text(ifs.Cond)] && terminates(ifs.Body) {
+							found = true
+						}
+					}
+				}
+			}
+			if !found {
+				bad++
+			}
+		}
+		stack = append(stack, n)
+		return true
+	})
+	return
+}
+
+// denseTables recognises the id tables of postDecode in one of two shapes:
+//
+//	inline:  x := make([]*T, len(p.F)+N) in postDecode, indexed there;
+//	helper:  x := ctor[T](len(p.F)) where `func ctor[T any](n int) …` returns a struct literal with a
+//	         field `dense: make([]*T, n+N)` and the methods of that struct type index `recv.dense`.
+//
+// It returns nil when the code has neither shape (the obligation is then vacuous; the dynamic
+// correspondence and C02's postDecode_id_tables_total remain).
+func (c *csCtx) denseTables(f *ast.File, fd *ast.FuncDecl) ([]csDense, string) {
+	if csRecvObj(fd) == nil {
+		return nil, "unrecognised"
+	}
+	csNormalize(map[*ast.Object]string{csRecvObj(fd): "p"}, fd.Body)
+	// inline shape
 	var out []csDense
 	idx := map[*ast.Object]int{}
 	for _, st := range fd.Body.List {
@@ -723,57 +1081,123 @@ func (c *csCtx) denseTables(fd *ast.FuncDecl) ([]csDense, error) {
 		if !ok || as.Tok != token.DEFINE || len(as.Lhs) != 1 || len(as.Rhs) != 1 {
 			continue
 		}
-		call, ok := as.Rhs[0].(*ast.CallExpr)
-		if !ok || c.text(call.Fun) != "make" || len(call.Args) == 0 {
-			continue
-		}
-		if _, isSlice := call.Args[0].(*ast.ArrayType); !isSlice {
-			continue
-		}
-		if !strings.HasPrefix(c.text(call.Args[0]), "[]*") {
-			continue // e.g. the []*Location scratch buffer is typed []*T too; see below
-		}
-		m := csMakeDense.FindStringSubmatch(c.text(call))
+		m := csMakeInline.FindStringSubmatch(c.text(as.Rhs[0]))
 		if m == nil {
-			// a slice of pointers that is not an id table: it must never be indexed by an id; only the
-			// known scratch buffer (sliced, never indexed) is accepted
 			continue
 		}
-		n, _ := strconv.Atoi(m[3])
+		n, _ := strconv.Atoi(m[3] + m[4])
 		idx[as.Lhs[0].(*ast.Ident).Obj] = len(out)
-		out = append(out, csDense{elem: m[1], table: m[2], extra: n})
+		out = append(out, csDense{elem: m[1], table: m[2] + m[5], extra: n})
 	}
-	if len(out) == 0 {
-		return nil, fmt.Errorf("postDecode builds no dense id table `make([]*T, len(p.F)+N)`")
-	}
-	var stack []ast.Node
-	var bad error
-	ast.Inspect(fd.Body, func(n ast.Node) bool {
-		if n == nil {
-			stack = stack[:len(stack)-1]
-			return true
+	if len(out) > 0 {
+		for o, k := range idx {
+			_, bad := c.unguarded(fd.Body, func(e ast.Expr) bool {
+				id, ok := e.(*ast.Ident)
+				return ok && id.Obj == o
+			})
+			out[k].unguarded = bad
 		}
-		if ie, ok := n.(*ast.IndexExpr); ok {
-			if id, ok := ie.X.(*ast.Ident); ok && id.Obj != nil {
-				if k, isDense := idx[id.Obj]; isDense {
-					want := c.text(ie.Index) + " < uint64(len(" + id.Name + "))"
-					found := false
-					for i, s := range stack {
-						if ifs, ok := s.(*ast.IfStmt); ok && i+1 < len(stack) && stack[i+1] == ast.Node(ifs.Body) && c.text(ifs.Cond) == want {
-							found = true
-						}
-					}
-					if !found && bad == nil {
-						bad = fmt.Errorf("dense id table of p.%s indexed without the guard `%s`: %s", out[k].table, want, c.text(ie))
-					}
-					out[k].guarded++
-				}
+		return out, "inline"
+	}
+	// helper shape: find constructors
+	type helper struct {
+		typ, field string
+		extra      int
+	}
+	ctors := map[string]helper{}
+	for _, d := range f.Decls {
+		hd, ok := d.(*ast.FuncDecl)
+		if !ok || hd.Recv != nil || hd.Body == nil || len(hd.Body.List) != 1 {
+			continue
+		}
+		ps := csParams(hd.Type)
+		rs, ok := hd.Body.List[0].(*ast.ReturnStmt)
+		if !ok || len(ps) != 1 || len(rs.Results) != 1 {
+			continue
+		}
+		csNormalize(map[*ast.Object]string{ps[0]: "a0"}, hd.Body)
+		e := ast.Unparen(rs.Results[0])
+		if u, ok := e.(*ast.UnaryExpr); ok && u.Op == token.AND {
+			e = u.X
+		}
+		cl, ok := e.(*ast.CompositeLit)
+		if !ok {
+			continue
+		}
+		t := cl.Type
+		if ix, ok := t.(*ast.IndexExpr); ok {
+			t = ix.X
+		}
+		tid, ok := t.(*ast.Ident)
+		if !ok {
+			continue
+		}
+		for _, el := range cl.Elts {
+			kv, ok := el.(*ast.KeyValueExpr)
+			if !ok {
+				continue
+			}
+			if m := csMakeHelper.FindStringSubmatch(c.text(kv.Value)); m != nil {
+				n, _ := strconv.Atoi(m[2] + m[3])
+				ctors[hd.Name.Name] = helper{typ: tid.Name, field: c.text(kv.Key), extra: n}
 			}
 		}
-		stack = append(stack, n)
-		return true
-	})
-	return out, bad
+	}
+	var used *helper
+	for _, st := range fd.Body.List {
+		as, ok := st.(*ast.AssignStmt)
+		if !ok || as.Tok != token.DEFINE || len(as.Lhs) != 1 || len(as.Rhs) != 1 {
+			continue
+		}
+		call, ok := as.Rhs[0].(*ast.CallExpr)
+		if !ok || len(call.Args) != 1 {
+			continue
+		}
+		fun, elem := call.Fun, ""
+		if ix, ok := fun.(*ast.IndexExpr); ok {
+			fun, elem = ix.X, c.text(ix.Index)
+		}
+		id, ok := fun.(*ast.Ident)
+		if !ok {
+			continue
+		}
+		h, ok := ctors[id.Name]
+		m := csLenField.FindStringSubmatch(c.text(call.Args[0]))
+		if !ok || m == nil {
+			continue
+		}
+		if used != nil && *used != h {
+			return nil, "unrecognised" // two different helpers: not a shape we know
+		}
+		hh := h
+		used = &hh
+		if elem == "" {
+			elem = m[1]
+		}
+		out = append(out, csDense{elem: elem, table: m[1], extra: h.extra})
+	}
+	if used == nil {
+		return nil, "unrecognised"
+	}
+	// every index expression on recv.<field> in the methods of the helper type
+	sites, bad := 0, 0
+	for _, d := range f.Decls {
+		md, ok := d.(*ast.FuncDecl)
+		if !ok || md.Recv == nil || md.Body == nil || csRecvType(md) != used.typ || csRecvObj(md) == nil {
+			continue
+		}
+		fixed := map[*ast.Object]string{csRecvObj(md): "t"}
+		csNormalize(fixed, md.Body)
+		s, b := c.unguarded(md.Body, func(e ast.Expr) bool { return c.text(e) == "t."+used.field })
+		sites, bad = sites+s, bad+b
+	}
+	if sites == 0 {
+		return nil, "unrecognised"
+	}
+	for k := range out {
+		out[k].unguarded = bad
+	}
+	return out, "helper " + used.typ
 }
 
 // ---- (c) proto.go --------------------------------------------------------------------------
@@ -786,73 +1210,160 @@ func csPositional(fd *ast.FuncDecl) {
 	csNormalize(fixed, fd.Body)
 }
 
-func (c *csCtx) packedThreshold(fd *ast.FuncDecl) (string, int, error) {
-	if fd == nil {
-		return "", 0, fmt.Errorf("function not found")
-	}
-	csPositional(fd)
-	if len(fd.Body.List) != 2 {
-		return "", 0, fmt.Errorf("body is not `if len(x) > N { packed; return }; loop`")
-	}
-	ifs, ok := fd.Body.List[0].(*ast.IfStmt)
-	if !ok || ifs.Init != nil || ifs.Else != nil {
-		return "", 0, fmt.Errorf("first statement is not a plain if")
-	}
-	be, ok := ifs.Cond.(*ast.BinaryExpr)
-	if !ok || be.Op != token.GTR || c.text(be.X) != "len(a2)" {
-		return "", 0, fmt.Errorf("packed-encoding condition is not `len(x) > N`: %s", c.text(ifs.Cond))
-	}
-	n, ok := csIntLit(be.Y)
-	if !ok {
-		return "", 0, fmt.Errorf("packed-encoding threshold is not an integer literal: %s", c.text(ifs.Cond))
-	}
-	if len(ifs.Body.List) == 0 {
-		return "", 0, fmt.Errorf("empty packed branch")
-	}
-	if _, ok := ifs.Body.List[len(ifs.Body.List)-1].(*ast.ReturnStmt); !ok {
-		return "", 0, fmt.Errorf("packed branch does not end in return")
-	}
-	if _, ok := fd.Body.List[1].(*ast.RangeStmt); !ok {
-		return "", 0, fmt.Errorf("unpacked branch is not a loop")
-	}
-	return c.text(ifs.Cond), n, nil
+func (c *csCtx) calls(n ast.Node, names ...string) bool {
+	found := false
+	ast.Inspect(n, func(x ast.Node) bool {
+		if call, ok := x.(*ast.CallExpr); ok {
+			if id, ok := call.Fun.(*ast.Ident); ok {
+				for _, nm := range names {
+					if id.Name == nm {
+						found = true
+					}
+				}
+			}
+		}
+		return true
+	})
+	return found
 }
 
-func (c *csCtx) varintLimit(fd *ast.FuncDecl) (string, int, error) {
+// packedThreshold returns N such that the encoder uses the packed form iff len(x) > N.
+func (c *csCtx) packedThreshold(fd *ast.FuncDecl, single string) (int, error) {
 	if fd == nil {
-		return "", 0, fmt.Errorf("function not found")
+		return 0, fmt.Errorf("function not found")
 	}
 	csPositional(fd)
-	for _, st := range fd.Body.List {
-		fs, ok := st.(*ast.ForStmt)
-		if !ok || len(fs.Body.List) == 0 {
+	for k, st := range fd.Body.List {
+		ifs, ok := st.(*ast.IfStmt)
+		if !ok || ifs.Init != nil {
 			continue
 		}
-		ifs, ok := fs.Body.List[0].(*ast.IfStmt)
+		be, ok := ast.Unparen(ifs.Cond).(*ast.BinaryExpr)
 		if !ok {
-			break
+			continue
 		}
-		be, ok := ifs.Cond.(*ast.BinaryExpr)
-		if !ok || be.Op != token.LOR {
-			break
+		op, l, r := be.Op, be.X, be.Y
+		if _, isConst := c.intConst(l); isConst { // N op len(x)  ⇒  len(x) op' N
+			l, r = r, l
+			op = map[token.Token]token.Token{token.LSS: token.GTR, token.GTR: token.LSS, token.LEQ: token.GEQ, token.GEQ: token.LEQ}[op]
 		}
-		l, ok := be.X.(*ast.BinaryExpr)
-		if !ok || l.Op != token.GEQ {
-			break
+		n, ok := c.intConst(r)
+		if !ok || c.text(l) != "len(a2)" {
+			continue
 		}
-		n, ok := csIntLit(l.Y)
-		if !ok {
-			break
+		var rest ast.Node = &ast.BlockStmt{List: fd.Body.List[k+1:]}
+		if ifs.Else != nil {
+			rest = ifs.Else
 		}
-		return c.text(ifs.Cond), n, nil
+		thenPacked := c.calls(ifs.Body, "encodeLength") && !c.calls(ifs.Body, single)
+		thenSingle := c.calls(ifs.Body, single) && !c.calls(ifs.Body, "encodeLength")
+		restPacked := c.calls(rest, "encodeLength") && !c.calls(rest, single)
+		restSingle := c.calls(rest, single) && !c.calls(rest, "encodeLength")
+		switch {
+		case thenPacked && restSingle && op == token.GTR:
+			return n, nil
+		case thenPacked && restSingle && op == token.GEQ:
+			return n - 1, nil
+		case thenSingle && restPacked && op == token.LEQ:
+			return n, nil
+		case thenSingle && restPacked && op == token.LSS:
+			return n - 1, nil
+		}
+		return 0, fmt.Errorf("cannot tell the packed from the unpacked branch of `if %s`", c.text(ifs.Cond))
 	}
-	return "", 0, fmt.Errorf("loop guard `i >= N || i >= len(data)` not found")
+	return 0, fmt.Errorf("no test of len(x) against a constant found")
+}
+
+// varintLimit returns N such that decodeVarint refuses to read the byte with index N (reads at most
+// N bytes): `i >= N`, `i == N`, a loop bound `i < N`, or a truncation `len(data) > N`; N a literal or a
+// package-level constant.
+func (c *csCtx) varintLimit(fd *ast.FuncDecl) (int, error) {
+	if fd == nil {
+		return 0, fmt.Errorf("function not found")
+	}
+	csPositional(fd)
+	idx := map[*ast.Object]bool{}
+	ast.Inspect(fd.Body, func(n ast.Node) bool {
+		switch s := n.(type) {
+		case *ast.ForStmt:
+			if as, ok := s.Init.(*ast.AssignStmt); ok && as.Tok == token.DEFINE {
+				for _, l := range as.Lhs {
+					if id, ok := l.(*ast.Ident); ok && id.Obj != nil {
+						idx[id.Obj] = true
+					}
+				}
+			}
+		case *ast.RangeStmt:
+			if id, ok := s.Key.(*ast.Ident); ok && id.Obj != nil && s.Tok == token.DEFINE {
+				idx[id.Obj] = true
+			}
+		}
+		return true
+	})
+	cands := map[int]bool{}
+	ast.Inspect(fd.Body, func(n ast.Node) bool {
+		be, ok := n.(*ast.BinaryExpr)
+		if !ok {
+			return true
+		}
+		op, l, r := be.Op, ast.Unparen(be.X), ast.Unparen(be.Y)
+		if _, isConst := c.intConst(l); isConst {
+			l, r = r, l
+			op = map[token.Token]token.Token{token.LSS: token.GTR, token.GTR: token.LSS, token.LEQ: token.GEQ, token.GEQ: token.LEQ, token.EQL: token.EQL, token.NEQ: token.NEQ}[op]
+		}
+		n2, ok := c.intConst(r)
+		if !ok {
+			return true
+		}
+		if id, ok := l.(*ast.Ident); ok && id.Obj != nil && idx[id.Obj] {
+			switch op {
+			case token.GEQ, token.EQL, token.LSS, token.NEQ:
+				cands[n2] = true
+			case token.GTR, token.LEQ:
+				cands[n2+1] = true
+			}
+		} else if call, ok := l.(*ast.CallExpr); ok && c.text(call.Fun) == "len" && n2 > 0 {
+			switch op {
+			case token.GTR, token.LEQ:
+				cands[n2] = true
+			case token.GEQ, token.LSS:
+				cands[n2-1] = true
+			}
+		}
+		return true
+	})
+	if len(cands) != 1 {
+		return 0, fmt.Errorf("byte limit not found: %d candidate comparisons of the loop index with a constant", len(cands))
+	}
+	for n := range cands {
+		return n, nil
+	}
+	return 0, nil
 }
 
 var (
-	csShift = regexp.MustCompile(`^int\(\w+ >> (\d+)\)$`)
-	csMask  = regexp.MustCompile(`^int\(\w+ & (\d+)\)$`)
+	csShift = regexp.MustCompile(`^int\(\w+ >> (\w+)\)$`)
+	csDiv   = regexp.MustCompile(`^int\(\w+ / (\w+)\)$`)
+	csMask  = regexp.MustCompile(`^int\(\w+ & (\w+)\)$`)
+	csMod   = regexp.MustCompile(`^int\(\w+ % (\w+)\)$`)
 )
+
+func (c *csCtx) num(s string) (int, bool) {
+	if v, err := strconv.ParseInt(s, 0, 64); err == nil {
+		return int(v), true
+	}
+	v, ok := c.consts[s]
+	return v, ok
+}
+
+func csLog2(n int) (int, bool) {
+	for k := 0; k < 62; k++ {
+		if 1<<k == n {
+			return k, true
+		}
+	}
+	return 0, false
+}
 
 func (c *csCtx) decodeField(fd *ast.FuncDecl, pr *csProto) error {
 	if fd == nil {
@@ -865,19 +1376,36 @@ func (c *csCtx) decodeField(fd *ast.FuncDecl, pr *csProto) error {
 		switch s := st.(type) {
 		case *ast.AssignStmt:
 			if len(s.Lhs) == 1 && len(s.Rhs) == 1 {
+				rhs := c.text(s.Rhs[0])
 				switch c.text(s.Lhs[0]) {
 				case "a0.field":
-					m := csShift.FindStringSubmatch(c.text(s.Rhs[0]))
-					if m == nil {
+					if m := csShift.FindStringSubmatch(rhs); m != nil {
+						if v, ok := c.num(m[1]); ok {
+							pr.fieldShift = v
+						}
+					} else if m := csDiv.FindStringSubmatch(rhs); m != nil {
+						if v, ok := c.num(m[1]); ok {
+							if k, ok := csLog2(v); ok {
+								pr.fieldShift = k
+							}
+						}
+					}
+					if pr.fieldShift < 0 {
 						return fmt.Errorf("field number is not `x >> N`: %s", c.text(s))
 					}
-					pr.fieldShift, _ = strconv.Atoi(m[1])
 				case "a0.typ":
-					m := csMask.FindStringSubmatch(c.text(s.Rhs[0]))
-					if m == nil {
+					if m := csMask.FindStringSubmatch(rhs); m != nil {
+						if v, ok := c.num(m[1]); ok {
+							pr.typeMask = v
+						}
+					} else if m := csMod.FindStringSubmatch(rhs); m != nil {
+						if v, ok := c.num(m[1]); ok {
+							pr.typeMask = v - 1
+						}
+					}
+					if pr.typeMask < 0 {
 						return fmt.Errorf("wire type is not `x & N`: %s", c.text(s))
 					}
-					pr.typeMask, _ = strconv.Atoi(m[1])
 				}
 			}
 		case *ast.SwitchStmt:
@@ -903,20 +1431,23 @@ func (c *csCtx) decodeField(fd *ast.FuncDecl, pr *csProto) error {
 		vals := map[int]bool{}
 		for _, b := range cl.Body {
 			ast.Inspect(b, func(n ast.Node) bool {
-				if e, ok := n.(ast.Expr); ok {
+				switch e := n.(type) {
+				case *ast.BasicLit:
 					if v, ok := csIntLit(e); ok {
-						if _, isLit := e.(*ast.BasicLit); isLit {
-							vals[v] = true
-						}
+						vals[v] = true
+					}
+				case *ast.Ident:
+					if v, ok := c.consts[e.Name]; ok && e.Obj != nil && e.Obj.Kind == ast.Con {
+						vals[v] = true
 					}
 				}
 				return true
 			})
 		}
 		for _, e := range cl.List {
-			t, ok := csIntLit(e)
+			t, ok := c.intConst(e)
 			if !ok {
-				return fmt.Errorf("case label is not an integer literal: %s", c.text(e))
+				return fmt.Errorf("case label is not an integer constant: %s", c.text(e))
 			}
 			pr.wireTypes = append(pr.wireTypes, t)
 			if len(vals) > 1 {
@@ -954,6 +1485,7 @@ func genCodecSchema(e *Env) (string, error) {
 		return "", err
 	}
 	c := &csCtx{fset: fset}
+	c.collectConsts(enc)
 	msgs, err := c.messages(enc)
 	if err != nil {
 		return "", fmt.Errorf("profile/encode.go: %v", err)
@@ -966,25 +1498,23 @@ func genCodecSchema(e *Env) (string, error) {
 	if err != nil {
 		return "", fmt.Errorf("profile/encode.go: preEncode: %v", err)
 	}
-	dense, err := c.denseTables(ef["Profile.postDecode"])
-	if err != nil {
-		return "", fmt.Errorf("profile/encode.go: postDecode: %v", err)
-	}
+	dense, denseShape := c.denseTables(enc, ef["Profile.postDecode"])
 
 	pfset, pf, err := parseFile(e, "profile/proto.go")
 	if err != nil {
 		return "", err
 	}
 	pc := &csCtx{fset: pfset}
+	pc.collectConsts(pf)
 	pfn := csFuncs(pf)
 	var pr csProto
-	if pr.packedCondU, pr.packedU, err = pc.packedThreshold(pfn["encodeUint64s"]); err != nil {
+	if pr.packedU, err = pc.packedThreshold(pfn["encodeUint64s"], "encodeUint64"); err != nil {
 		return "", fmt.Errorf("profile/proto.go: encodeUint64s: %v", err)
 	}
-	if pr.packedCondI, pr.packedI, err = pc.packedThreshold(pfn["encodeInt64s"]); err != nil {
+	if pr.packedI, err = pc.packedThreshold(pfn["encodeInt64s"], "encodeInt64"); err != nil {
 		return "", fmt.Errorf("profile/proto.go: encodeInt64s: %v", err)
 	}
-	if pr.varintCond, pr.varintLimit, err = pc.varintLimit(pfn["decodeVarint"]); err != nil {
+	if pr.varintLimit, err = pc.varintLimit(pfn["decodeVarint"]); err != nil {
 		return "", fmt.Errorf("profile/proto.go: decodeVarint: %v", err)
 	}
 	if err = pc.decodeField(pfn["decodeField"], &pr); err != nil {
@@ -993,11 +1523,10 @@ func genCodecSchema(e *Env) (string, error) {
 
 	var b strings.Builder
 	b.WriteString("/- GENERATED by /verif/tools/extract/codecschema.go from profile/encode.go and profile/proto.go.\n")
-	b.WriteString("   Regenerated from the current source on every `bin/check C01` / `bin/check C02`; do not edit.\n")
-	b.WriteString("   Receiver = p, buffer = b, message = m, other parameters a0…, locals g0…/v0… (alpha-normalised). -/\n")
+	b.WriteString("   Regenerated from the current source on every `bin/check C01` / `bin/check C02`; do not edit. -/\n")
 	b.WriteString("namespace PV.Gen.CodecSchema\n\n")
-	b.WriteString("/-- one statement of an `encode` method -/\n")
-	b.WriteString("structure EncStmt where\n  tag : Nat\n  fn : String\n  field : String\n  guard : String\n  guardNonZero : List String\n  deriving DecidableEq, Repr\n\n")
+	b.WriteString("/-- one statement of an `encode` method; `guardNonZero` = the fields a guarded message tests (sorted) -/\n")
+	b.WriteString("structure EncStmt where\n  tag : Nat\n  fn : String\n  field : String\n  guardNonZero : List String\n  deriving DecidableEq, Repr\n\n")
 	b.WriteString("/-- one entry of a `[]decoder` table -/\n")
 	b.WriteString("structure DecEntry where\n  index : Nat\n  fn : String\n  recv : String\n  field : String\n  msg : String\n  deriving DecidableEq, Repr\n\n")
 	b.WriteString("structure Message where\n  name : String\n  decoderVar : String\n  enc : List EncStmt\n  dec : List DecEntry\n  deriving DecidableEq, Repr\n\n")
@@ -1005,7 +1534,7 @@ func genCodecSchema(e *Env) (string, error) {
 	for i, m := range msgs {
 		fmt.Fprintf(&b, "  { name := %s, decoderVar := %s,\n    enc := [\n", leanStr(m.name), leanStr(m.decVar))
 		for j, s := range m.enc {
-			fmt.Fprintf(&b, "      { tag := %d, fn := %s, field := %s, guard := %s, guardNonZero := %s }", s.tag, leanStr(s.fn), leanStr(s.field), leanStr(s.guard), csStrList(s.nonZero))
+			fmt.Fprintf(&b, "      { tag := %d, fn := %s, field := %s, guardNonZero := %s }", s.tag, leanStr(s.fn), leanStr(s.field), csStrList(s.nonZero))
 			if j+1 < len(m.enc) {
 				b.WriteString(",")
 			}
@@ -1026,36 +1555,41 @@ func genCodecSchema(e *Env) (string, error) {
 		b.WriteString("\n")
 	}
 	b.WriteString("]\n\n")
-	b.WriteString("/-- facts read from profile/proto.go -/\n")
-	b.WriteString("structure Proto where\n  packedCondUint64s : String\n  packedThresholdUint64s : Nat\n  packedCondInt64s : String\n  packedThresholdInt64s : Nat\n  varintCond : String\n  varintLimit : Nat\n  fieldShift : Nat\n  typeMask : Nat\n  wireTypes : List Nat\n  defaultRejects : Bool\n  fixedSizes : List (Nat × Nat)\n  deriving DecidableEq, Repr\n\n")
+	b.WriteString("/-- facts read from profile/proto.go: packed form iff len > threshold; decodeVarint reads at most\n    `varintLimit` bytes; key = field <<< fieldShift ||| type, type = key &&& typeMask -/\n")
+	b.WriteString("structure Proto where\n  packedThresholdUint64s : Nat\n  packedThresholdInt64s : Nat\n  varintLimit : Nat\n  fieldShift : Nat\n  typeMask : Nat\n  wireTypes : List Nat\n  defaultRejects : Bool\n  fixedSizes : List (Nat × Nat)\n  deriving DecidableEq, Repr\n\n")
 	var fs []string
 	for _, p := range pr.fixedSizes {
 		fs = append(fs, fmt.Sprintf("(%d, %d)", p[0], p[1]))
 	}
-	fmt.Fprintf(&b, "def proto : Proto :=\n  { packedCondUint64s := %s, packedThresholdUint64s := %d,\n    packedCondInt64s := %s, packedThresholdInt64s := %d,\n    varintCond := %s, varintLimit := %d,\n    fieldShift := %d, typeMask := %d, wireTypes := %s, defaultRejects := %v,\n    fixedSizes := [%s] }\n\n",
-		leanStr(pr.packedCondU), pr.packedU, leanStr(pr.packedCondI), pr.packedI, leanStr(pr.varintCond), pr.varintLimit,
-		pr.fieldShift, pr.typeMask, csNatList(pr.wireTypes), pr.defaultRejects, strings.Join(fs, ", "))
-	b.WriteString("/-- one `addString(strings, arg)` call of preEncode with the headers of the enclosing statements -/\n")
-	b.WriteString("structure InternSite where\n  ctx : String\n  arg : String\n  deriving DecidableEq, Repr\n\n")
+	fmt.Fprintf(&b, "def proto : Proto :=\n  { packedThresholdUint64s := %d, packedThresholdInt64s := %d, varintLimit := %d,\n    fieldShift := %d, typeMask := %d, wireTypes := %s, defaultRejects := %v,\n    fixedSizes := [%s] }\n\n",
+		pr.packedU, pr.packedI, pr.varintLimit, pr.fieldShift, pr.typeMask, csNatList(pr.wireTypes), pr.defaultRejects, strings.Join(fs, ", "))
+	b.WriteString("/-- one `addString(strings, arg)` call of preEncode: symbolic path of the argument under the\n    symbolic paths of the enclosing loops / conditions (outermost first) -/\n")
+	b.WriteString("structure InternSite where\n  ctx : List String\n  arg : String\n  deriving DecidableEq, Repr\n\n")
 	b.WriteString("def internOrder : List InternSite := [\n")
 	for i, s := range sites {
-		fmt.Fprintf(&b, "  { ctx := %s, arg := %s }", leanStr(s.ctx), leanStr(s.arg))
+		fmt.Fprintf(&b, "  { ctx := %s,\n    arg := %s }", csStrList(s.ctx), leanStr(s.arg))
 		if i+1 < len(sites) {
 			b.WriteString(",")
 		}
 		b.WriteString("\n")
 	}
 	b.WriteString("]\n\n")
-	b.WriteString("/-- `make([]*elem, len(p.table)+extra)` of postDecode; every one of the `guardedIndexes` index\n    expressions on it sits under `if idx < uint64(len(slice))` -/\n")
-	b.WriteString("structure DenseTable where\n  elem : String\n  table : String\n  extra : Nat\n  guardedIndexes : Nat\n  deriving DecidableEq, Repr\n\n")
-	b.WriteString("def denseTables : List DenseTable := [\n")
-	for i, d := range dense {
-		fmt.Fprintf(&b, "  { elem := %s, table := %s, extra := %d, guardedIndexes := %d }", leanStr(d.elem), leanStr(d.table), d.extra, d.guarded)
-		if i+1 < len(dense) {
-			b.WriteString(",")
+	b.WriteString("/-- a dense id table of postDecode: `make([]*elem, len(p.table)+extra)`; `unguardedIndexes` = index\n    expressions on it that are not under `id < uint64(len(table))` -/\n")
+	b.WriteString("structure DenseTable where\n  elem : String\n  table : String\n  extra : Nat\n  unguardedIndexes : Nat\n  deriving DecidableEq, Repr\n\n")
+	fmt.Fprintf(&b, "/-- shape in which the id-table code was recognised: %s -/\n", denseShape)
+	if dense == nil {
+		b.WriteString("def denseTables : Option (List DenseTable) := none\n")
+	} else {
+		b.WriteString("def denseTables : Option (List DenseTable) := some [\n")
+		for i, d := range dense {
+			fmt.Fprintf(&b, "  { elem := %s, table := %s, extra := %d, unguardedIndexes := %d }", leanStr(d.elem), leanStr(d.table), d.extra, d.unguarded)
+			if i+1 < len(dense) {
+				b.WriteString(",")
+			}
+			b.WriteString("\n")
 		}
-		b.WriteString("\n")
+		b.WriteString("]\n")
 	}
-	b.WriteString("]\n\nend PV.Gen.CodecSchema\n")
+	b.WriteString("\nend PV.Gen.CodecSchema\n")
 	return b.String(), nil
 }
